@@ -5,6 +5,7 @@ import (
 	"go/ast"
 	"go/constant"
 	"go/token"
+	"go/types"
 	"strings"
 
 	"golang.org/x/tools/go/ssa"
@@ -622,6 +623,116 @@ func runC18(c *Ctx) {
 			}
 		}
 		c.check(okA, "addr-joined-with-own-port", nf.Pos(), "the resolved address is AddrPortFrom(ip, sp.port)", "the resolver's address string is not the resolved ip joined with its own port field")
+	}
+
+	// ---------------------------------------------------------------- R8
+	c.rule("R8", "the address helpers do what their callers rely on: ports parse as 16-bit decimals (out of range is an error, never truncated), joinPort is JoinHostPort(host, decimal port), tryRemovePort is SplitHostPort's host; the default port reaches parseDialAddr as given; the parsed URL's host is never rewritten", 5)
+	{
+		if f := c.fn(relUpstream, "", "trySplitHostPort"); f != nil {
+			c.see(f)
+			good, why := false, "no uint16 conversion of a ParseUint result"
+			eachInstr(f, func(in ssa.Instruction) {
+				cv, ok := in.(*ssa.Convert)
+				if !ok {
+					return
+				}
+				if b, ok := cv.Type().Underlying().(*types.Basic); !ok || b.Kind() != types.Uint16 {
+					return
+				}
+				ex, ok := cv.X.(*ssa.Extract)
+				if !ok {
+					why = "the port is converted from " + exprStr(cv.X)
+					return
+				}
+				cl, ok := ex.Tuple.(*ssa.Call)
+				if !ok || callName(cl) != "strconv.ParseUint" {
+					why = "the port comes from " + exprStr(cv.X) + ", not from strconv.ParseUint(.., 10, 16): a port above 65535 is truncated to another port instead of being rejected"
+					return
+				}
+				base, _ := constInt(cl.Call.Args[1])
+				bits, _ := constInt(cl.Call.Args[2])
+				if base != 10 || bits != 16 {
+					why = fmt.Sprintf("ParseUint base %d bitSize %d (10 and 16 required)", base, bits)
+					return
+				}
+				if ok2, w := errCheckedAndReturned(cl); !ok2 {
+					why = "the parse error is not returned: " + w
+					return
+				}
+				good = true
+			})
+			c.check(good, "helper:trySplitHostPort", f.Pos(), "port = uint16(ParseUint(port, 10, 16)), error returned", why)
+		}
+		if f := c.fn(relUpstream, "", "joinPort"); f != nil {
+			c.see(f)
+			good := false
+			for _, r := range returnsOf(f) {
+				if cl, ok := returnedValues(r)[0].(*ssa.Call); ok && callName(cl) == "net.JoinHostPort" && cl.Call.Args[0] == ssa.Value(f.Params[0]) {
+					if it, ok := cl.Call.Args[1].(*ssa.Call); ok && callName(it) == "strconv.Itoa" {
+						if cv, ok := it.Call.Args[0].(*ssa.Convert); ok && cv.X == ssa.Value(f.Params[1]) {
+							good = true
+						}
+					}
+				}
+			}
+			c.check(good, "helper:joinPort", f.Pos(), "joinPort = net.JoinHostPort(host, Itoa(port))", "joinPort is not net.JoinHostPort(host, strconv.Itoa(int(port))): IPv6 hosts are joined without brackets")
+		}
+		if f := c.fn(relUpstream, "", "tryRemovePort"); f != nil {
+			c.see(f)
+			good, n := true, 0
+			for _, r := range returnsOf(f) {
+				n++
+				v := returnedValues(r)[0]
+				if v == ssa.Value(f.Params[0]) {
+					continue
+				}
+				if ex, ok := v.(*ssa.Extract); ok && ex.Index == 0 {
+					if cl, ok := ex.Tuple.(*ssa.Call); ok && callName(cl) == "net.SplitHostPort" && cl.Call.Args[0] == ssa.Value(f.Params[0]) {
+						continue
+					}
+				}
+				good = false
+			}
+			c.check(good && n == 2, "helper:tryRemovePort", f.Pos(), "tryRemovePort = SplitHostPort(s) host, or s", "tryRemovePort is not {net.SplitHostPort(s)'s host, s on error}: the TLS server name of a bare IPv6 literal is cut at a colon")
+		}
+		// default port argument of parseDialAddr: a constant or the enclosing closure's own parameter
+		nPd := 0
+		for _, a := range withAnon(nu) {
+			fn := a
+			eachInstr(a, func(in ssa.Instruction) {
+				ci, ok := in.(*ssa.Call)
+				if !ok || callName(ci) != relUpstream+".parseDialAddr" || len(ci.Call.Args) < 3 {
+					return
+				}
+				nPd++
+				d := ci.Call.Args[2]
+				good := false
+				if _, isC := constInt(d); isC {
+					good = true
+				}
+				for _, pa := range fn.Params {
+					if isParamValue(p, d, pa) {
+						good = true
+					}
+				}
+				c.check(good, "default-port-as-given@"+funcName(fn), instrPos(in), "parseDialAddr gets the scheme's default port unchanged", "the default port handed to parseDialAddr is "+exprStr(d)+", not the constant chosen for the scheme: an address without port is dialled on another port than its scheme's default")
+			})
+		}
+		if nPd == 0 {
+			c.anchorMissing("parseDialAddr calls in NewUpstream")
+		}
+		// nobody rewrites the parsed URL (except the scheme rewrite of R5) or the options
+		for _, fld := range []string{"net/url.URL.Host", "net/url.URL.Path", "net/url.URL.Opaque", relUpstream + ".Opt.DialAddr"} {
+			for _, w := range p.whoWrites().byField[fld] {
+				if w.Kind == "structstore" {
+					continue // the by-value parameter's spill
+				}
+				if w.Fn.Pkg != nil && strings.HasSuffix(w.Fn.Pkg.Pkg.Path(), relUpstream) {
+					c.fail("config-not-rewritten:"+fieldTail(fld), instrPos(w.Instr), "%s is overwritten in %s before the address is derived from it: the connection goes to another host or port than the user wrote", fld, funcName(w.Fn))
+				}
+			}
+		}
+		c.ok("config-not-rewritten", nu.Pos(), "the parsed URL's host/path and opt.DialAddr are never written in pkg/upstream")
 	}
 
 }
